@@ -24,7 +24,7 @@ type Mutation { saveHuman(name: String!): Human! saveBoth(name: String!): SavePa
 `
 const vSB = `
 interface Node { id: ID! }
-type Human implements Node { id: ID! phone(cc: Int = 7): String! fax(cc: Int!): String pets: [Animal!]! }
+type Human implements Node { id: ID! phone(cc: Int = 7): String! fax(cc: Int!): String pets: [Animal!]! buddies: [Human!]! }
 type Animal { name: String! owner: Human! kind: Kind }
 enum Kind { CAT DOG }
 type Query { node(id: ID!): Node getAnimals: [Animal!]! phoneCount(first: Int): Int }
@@ -35,7 +35,7 @@ type Mutation { savePhone(p: String!): Human! }
 const vSC = `
 interface Node { id: ID! }
 type Human implements Node { id: ID! email: String badge: Badge }
-type Badge { code: Int label: String }
+type Badge { code: Int label: String tags: [String!]! }
 type Query { node(id: ID!): Node }
 `
 
@@ -68,7 +68,10 @@ func vReadmeWorld(k int) *vWorld {
 		w.ents["h2"] = vEnt{"__typename": "Human", "id": "h2", "friends": []vRef{{"Human", "h1"}}, "best": vRef{"Human", "h1"}, "pets": []vRef{{"Animal", "a1"}}, "age": nil, "badge": vRef{"Badge", "b1"}}
 	}
 	w.ents["a1"] = vEnt{"__typename": "Animal", "id": "a1", "owner": vRef{"Human", "h1"}, "kind": "CAT"}
-	w.ents["b1"] = vEnt{"__typename": "Badge", "id": "b1", "code": verifInt("b1_code", 0, 9)}
+	w.ents["b1"] = vEnt{"__typename": "Badge", "id": "b1", "code": verifInt("b1_code", 0, 9), "tags": []interface{}{"red", "green"}}
+	for _, hid := range []string{"h1", "h2"} {
+		w.ents[hid]["buddies"] = []vRef{{"Human", "h1"}}
+	}
 	w.roots["Query.getHumans"] = vLazyRefs{"getHumans"}
 	w.roots["Query.me"] = vLazyRef{"me"}
 	w.roots["Query.findHumans"] = []vRef{{"Human", "h1"}}
@@ -182,6 +185,9 @@ func vReadmeOps() []vOp {
 		{q: `{ me { id: name phone } }`, known: "response-key-id-taken"},
 		{q: `{ me { t: __typename phone } }`},
 		{q: `{ getHumans { ...F friends { ...F } } } fragment F on Human { phone name }`},
+		// an entity met several times on one level, completed with a list of entities that are completed in
+		// turn with an object holding a list of scalars (the fanned-out copies must not share anything)
+		{q: `{ getHumans { buddies { name badge { tags } } } }`},
 		// a node lookup with a fragment on one type, for an entity of that or of another type
 		{q: `query($id: ID!) { node(id: $id) { ...F } } fragment F on Robot { name }`, noNode: true, vars: func() map[string]interface{} {
 			return map[string]interface{}{"id": []string{"h1", "r1"}[verifChoice("var_id", 2)]}
